@@ -3,7 +3,7 @@ from rules import grd as G
 from rules import fmt as F
 from rules import tbl_write_integer as I
 from rules import extra as X
-from rules.core import (guarded, callee_name, last_seg, path_conditions, op_expr, rvalue_expr, show, strip_casts, expr_calls,
+from rules.core import (guarded, guarded_soft, callee_name, last_seg, path_conditions, op_expr, rvalue_expr, show, strip_casts, expr_calls,
                         expr_consts, fold, AnchorMissing)
 
 INFO = {
@@ -218,7 +218,7 @@ def run(col, configs, tier):
         guarded(col, X.rule_integer_sign_allowance, facts)
         guarded(col, X.rule_debug_buffer_belief, facts)
         guarded(col, X.rule_radix_digit_clamp, facts)
-        guarded(col, X.rule_u128_count_chunks, facts)
+        guarded_soft(col, X.rule_u128_count_chunks, facts)
         guarded(col, X.rule_naive_count_stages, facts)
         guarded(col, X.rule_zero_exponent_normalised, facts)
         guarded(col, X.rule_break_magnitude, facts)
